@@ -80,6 +80,8 @@ def classify_events(bad):
     def pair(b):
         return (json.dumps(b["w"]["wv"], sort_keys=True), json.dumps(b["w"]["wt"], sort_keys=True))
     exh_pairs = {pair(b) for b in bad if b["w"].get("exh") and b["e"].get("t") == 1}
+    # the carried value flows on into other typed positions of the same runs (arguments, wider unions ...)
+    exh_values = {p[0] for p in exh_pairs}
     by_pair = {}
     for b in bad:
         by_pair.setdefault(pair(b), set()).add(b["e"].get("kind") or b["e"].get("ev"))
@@ -90,7 +92,7 @@ def classify_events(bad):
             sig = {"class": "unbound-parameter", "name": e.get("name")}
         elif e.get("ev") == "write" and w["wv"].get("k") == "n/a":
             sig = {"class": "write-inconsistent", "op": e.get("op")}
-        elif w.get("exh") or (e.get("t") == 1 and pair(b) in exh_pairs):
+        elif w.get("exh") or (e.get("t") == 1 and (pair(b) in exh_pairs or pair(b)[0] in exh_values)):
             sig = {"class": "exhausted-iterator-value"}
         else:
             sig = {"class": "value-not-in-type", "witness_value": pair(b)[0], "witness_type": pair(b)[1],
